@@ -180,7 +180,7 @@ func readDNSMasqLease(r io.Reader) (macs, addrs, names map[string][]string, err 
 				continue
 			}
 			name := absDomainName([]byte(hostname))
-			key := strings.ToLower(name)
+			key := lowerASCII(name)
 			mac := strings.ToLower(fields[1])
 			ip := strings.ToLower(fields[2])
 			macs[mac] = appendUniq(macs[mac], name)
